@@ -68,6 +68,19 @@ add("C18", "fault_enumeration",
     "Digests compare content, not error kinds; the extension clause is checked in its sound direction only.",
     "crash-point (prefix) enumeration over property-based generated files with a metamorphic oracle (prefix/extension vs whole file)", "DESIGN.md §5 C18")
 
+add("C03", "exploration",
+    "Seeded proptest search over generated files whose section/segment ranges are drawn from boundary pairs (inside, zero-length at 0/mid/EOF/EOF+1, ending at EOF-1/EOF/EOF+1, far outside, overflowing, sharing endpoints, whole file, raw 64-bit), p_memsz != p_filesz always, NOBITS/compressed flags on arbitrary ranges, fabricated headers; the ground truth is the builder's header values; every returned &[u8]/&str is checked by pointer and length against the designated range.",
+    "Trusts the file builder's ground truth and the NUL-scan / note reference walkers for sub-ranges.",
+    "property-based testing (proptest) with an inverse oracle (file builder ground truth) and pointer-identity checks", "DESIGN.md §5 C03")
+add("C05", "exploration",
+    "Seeded proptest search over generated files with section counts crossing 0xff00 and program header counts crossing 0xffff (real 4 MiB tables and 'unnecessary' uses of the shdr[0] escape hatches), shstrndx via SHN_XINDEX, tables anywhere incl. touching EOF or cut short, every wrong entsize, offsets forced to 0, wrong sh_entsize on symtab/dynsym/versym/dynamic; oracle = the statement's rule evaluated by an independent reader on the bytes written; both parsers.",
+    "Trusts the independent header reader and the builder; PN_XNUM without a section table is skipped as outside the statement.",
+    "property-based testing (proptest) with an inverse oracle (ground-truth layout) and an executable statement of the location rule", "DESIGN.md §5 C05")
+add("C20", "exploration",
+    "Seeded proptest search over generated objects (each kind present/absent independently, shuffled section order, name pool of prefixes/suffixes/duplicates/non-UTF-8/empty names, sh_link to any section, stripped twins); differential oracle between access paths (find_common_data vs targeted accessors vs tables rebuilt from section_data, by-name lookup vs manual scan, typed views vs encoded model, .dynamic vs PT_DYNAMIC of the twin), both parsers.",
+    "Trusts the object builder's model (encoded entries) and the reference walkers; wrong-type views only need to be refused.",
+    "differential property-based testing (proptest) between alternative access paths, with encoder ground truth", "DESIGN.md §5 C20")
+
 NOT_YET = {}
 allp = [json.loads(l)["id"] for l in open("properties.jsonl")]
 checks = []
